@@ -220,9 +220,9 @@ func tamperScenario(via string, L int, mode string, k int, seed uint64) *Scenari
 // ---- C10: every placement of one store fault / one origin fault in a short history ----
 
 func enumPlacements(c *enumCtx) {
-	nBase := 6
+	nBase := 200 // bounded by the wall-clock budget
 	if c.job.Thorough {
-		nBase = 400
+		nBase = 4000
 	}
 	for b := 0; b < nBase; b++ {
 		if !c.mine() {
